@@ -106,12 +106,14 @@ class CompMixin(Interp):
                 i = self.fresh_const(st, "i", z3.IntSort())
                 s = Source(binders=[i], guard=z3.And(0 <= i, i < z3.Length(h.t)), elem=self.lift(h.t[i], h.elem_ty), seqsrc=(h.t, i))
                 s.indexed = True
+                s.length = z3.Length(h.t)
                 return s
             if isinstance(h, HListC):
                 i = self.fresh_const(st, "i", z3.IntSort())
                 s = Source(binders=[i], guard=z3.And(0 <= i, i < h.length),
                            elem=self.load(st, VRef(v.root, v.path + (("k", VInt(i)),))))
                 s.indexed = True
+                s.length = h.length
                 return s
             if isinstance(h, HDict):
                 bs, kt, kv = self.key_binders(st, h.kty)
@@ -176,7 +178,8 @@ class CompMixin(Interp):
 
     def _comp(self, st, gens, body_fn, binders, guard, all_concrete, seqsrc, kind):
         if not gens:
-            return [("one", tuple(binders), guard, body_fn(), seqsrc)]
+            info = getattr(self, "_idx_stack", [None])[-1]
+            return [("one", tuple(binders), guard, body_fn(), seqsrc, info)]
         g = gens[0]
         src = self.source(st, self.ev(g.iter, st))
         out = []
@@ -198,6 +201,12 @@ class CompMixin(Interp):
                 del st.pc[n:]
             return out
         n = len(st.pc)
+        if not hasattr(self, "_idx_stack"):
+            self._idx_stack = [None]
+        if getattr(src, "indexed", False) and not binders and len(gens) == 1 and not g.ifs and getattr(src, "length", None) is not None:
+            self._idx_stack.append((src.binders[0], t_and(guard, src.guard), src.length))
+        else:
+            self._idx_stack.append(None)
         self.push_binders(st, src.binders)
         ns_saved = st.ghost.get("__nosplit__", ())
         st.ghost["__nosplit__"] = tuple(ns_saved) + tuple(b.get_id() for b in src.binders)
@@ -212,6 +221,7 @@ class CompMixin(Interp):
             ss = src.seqsrc if (seqsrc is None and not binders) else None
             return self._comp(st, gens[1:], body_fn, binders + list(src.binders), t_and(guard, src.guard, *conds), False, ss, kind)
         finally:
+            self._idx_stack.pop()
             self.pop_binders(st, len(src.binders))
             st.ghost["__nosplit__"] = ns_saved
             del st.pc[n:]
@@ -222,15 +232,27 @@ class CompMixin(Interp):
             vals = [p[3] for p in parts]
             return "concrete", vals
         if len(parts) == 1:
-            _, binders, guard, val, seqsrc = parts[0]
-            return "fam", VFam(kind, binders, guard, val, seqsrc)
-        raise Unsupported("comprehension mixing concrete and abstract generators with several branches")
+            _, binders, guard, val, seqsrc, info = parts[0]
+            f = VFam(kind, binders, guard, val, seqsrc)
+            f.idxinfo = info
+            return "fam", f
+        fs = []
+        for _, binders, guard, val, seqsrc, info in parts:
+            fs.append(VFam(kind, binders, guard, val, None))
+        return "fam", VParts(fs)
 
     def ev_ListComp(self, node, st):
         parts = self.ev_comp(st, node.generators, lambda: self.ev(node.elt, st), "list")
         k, r = self.comp_result(st, parts, "list")
         if k == "concrete":
             return self.alloc(st, HList(r))
+        # a comprehension over one indexed source without filter is an index-keyed list
+        idx = getattr(r, "idxinfo", None)
+        if idx is not None and len(r.binders) == 1 and r.binders[0].eq(idx[0]) and r.guard.eq(idx[1]):
+            elem = r.elem
+            if isinstance(elem, VRef):
+                elem = self.resolve(st, elem)
+            return self.alloc(st, HListC(idx[2], idx[0], elem))
         return r
 
     def ev_GeneratorExp(self, node, st):
@@ -352,6 +374,11 @@ class CompMixin(Interp):
         return body
 
     def agg_sum(self, st, v, start=None):
+        if isinstance(v, VParts):
+            r = start if start is not None else VInt(0)
+            for f in v.fams:
+                r = self.binop(st, ast.Add(), r, self.agg_sum(st, f))
+            return r
         if not isinstance(v, VFam):
             s0 = self.source(st, v)
             if not s0.concrete:
@@ -411,6 +438,9 @@ class CompMixin(Interp):
         raise Unsupported(f"len of {v!r}")
 
     def agg_any(self, st, v, is_all=False):
+        if isinstance(v, VParts):
+            ts = [self.agg_any(st, f, is_all).t for f in v.fams]
+            return VBool(t_and(*ts) if is_all else t_or(*ts))
         if not isinstance(v, VFam):
             s0 = self.source(st, v)
             if not s0.concrete:
@@ -463,6 +493,16 @@ class CompMixin(Interp):
             cur = self.v_ite(c, a, cur)
             kcur = self.v_ite(c, ka, kcur)
         return cur
+
+
+class VParts(V):
+    """Several comprehension pieces (a concrete generator with symbolic filters): only aggregates consume it."""
+
+    def __init__(self, fams):
+        self.fams = list(fams)
+
+    def map_terms(self, fn):
+        return VParts([f.map_terms(fn) for f in self.fams])
 
 
 class VRange(V):
